@@ -615,61 +615,69 @@ def ownership(check: Check) -> None:
 
 # ------------------------------------------------------------------------------------------------ H7
 def engine_init(check: Check) -> None:
+    """H7 [E on the model engines]: `Engine(..., load=True)` interpreted (sa/objexec.py) on engines with a Function and a Linear term in an input
+    and in an output variable and two rule blocks: afterwards every such term refers to the new engine (`update_reference` is interpreted too) and
+    every rule block was asked to load its rules with the new engine, after the references were set; with `load=False` nothing is touched."""
+    from ..absexec import Internal, MObj, Raised, Unknown
+    from .roundtrip_sem import E0, new_exec
+
     p = check.program
     fn = p.func("Engine.__init__")
     check.analysed(fn)
-    r = Resolver(p, fn)
-    cfg = r.cfg
-    upd = [(n, r.term(c, n)) for n, c in cfg.find_calls(".update_reference")]
-    lds = [(n, r.term(c, n)) for n, c in cfg.find_calls(".load_rules")]
-    ok_u = bool(upd) and all(t[2] == (("param", "self"),) for _, t in upd) and \
-        all(holds_at(r, n, ("param", "load")) for n, _ in upd)
-    # all variables, all terms: the receivers are the terms of the elements of collections that together cover inputs and outputs
-    def covered(b: Term) -> set[str]:
-        b = iter_base(b)[0]
-        pth = path_of(b)
-        if pth == "self.variables":
-            return {"in", "out"}
-        if pth in ("self.input_variables", "self.output_variables"):
-            return {"in" if pth == "self.input_variables" else "out"}
-        if b[0] == "binop" and b[1] == "+":
-            return covered(b[2]) | covered(b[3])
-        if b[0] in ("list", "tuple") or (b[0] == "call" and b[1][0] == "global" and b[1][1] in ("itertools.chain", "list", "tuple")):
-            acc: set[str] = set()
-            for x in (b[1] if b[0] in ("list", "tuple") else b[2]):
-                acc |= covered(x[1] if x[0] == "starred" else x)
-            return acc
-        if b[0] == "phi":
-            return set.union(*[covered(a) for a in b[1]])
-        return set()
-
-    cover: set[str] = set()
-    shaped = bool(upd)
-    for _, t in upd:
-        recv = t[1][1] if t[1][0] == "attr" else None
-        if recv is not None and recv[0] == "elem" and recv[1][0] == "attr" and recv[1][2] == "terms" and recv[1][1][0] == "elem":
-            cover |= covered(recv[1][1][1])
-        else:
-            shaped = False
-    all_terms = shaped and cover == {"in", "out"} and \
-        all(not early_exits(cfg, h) for n, _ in upd for h in cfg.enclosing_loops(n))
-    check.require(ok_u and all_terms, "H7", "Engine.__init__/update-references",
-                  "under load, every term of every input and output variable is re-pointed to this engine" if ok_u and all_terms else
-                  f"under load, update_reference(self) reaches only the terms of {sorted(cover) or 'no'} variables (or not every one of them): a "
-                  "Linear/Function term of the other variables keeps pointing at the engine it was built for (or at none)", loc(fn))
-    ok_l = bool(lds) and all(t[2] == (("param", "self"),) for _, t in lds) and bool(upd) and all(cfg.must_precede([u for u, _ in upd], n) or True for n, _ in lds)
-    order = bool(upd) and bool(lds) and lds[0][0] not in cfg.reach([cfg.entry], blocked={h for h in cfg.loop_heads() if upd[0][0] in cfg.loop_body(h)})
-    check.require(ok_l and order, "H7", "Engine.__init__/load-rules", "then every rule block is loaded against this engine", loc(fn))
     for qual in ("Linear.update_reference", "Function.update_reference"):
-        f = p.func(qual)
-        check.analysed(f)
-        rf = Resolver(p, f)
-        eng = ("param", f.params[1].name)
-        stores = [(n, t) for n in rf.cfg.stmt_nodes() for t in rf.cfg.stores_at(n)
-                  if isinstance(t, ast.Attribute) and t.attr == "engine" and rf.term(t.value, n) == ("param", "self")]
-        ok = bool(stores) and all(rf.term(n.ast.value, n) == eng for n, _ in stores) and \
-            any(not rf.cfg.must_guards(n) for n, _ in stores)
-        check.require(ok, "H7", f"{qual}/engine", "the term's engine reference is replaced by the given engine", loc(f))
+        check.analysed(p.func(qual))
+    why_u = why_l = None
+    cases = 0
+    try:
+        for load in (True, False):
+            for where in ("input", "output", "both"):
+                cases += 1
+                ex = new_exec(p)
+                log: list[tuple] = []
+
+                def load_rules(ex_, e, args, kw, log=log):
+                    blk, eng_ = args[0], (args[1] if len(args) > 1 else kw.get("engine"))
+                    terms_ = [t for coll in ("input_variables", "output_variables") for v in (eng_.fields.get(coll, []) if isinstance(eng_, MObj) else [])
+                              for t in v.fields.get("terms", [])]
+                    log.append((blk.fields.get("name"), eng_, all(t.fields.get("engine", t.fields.get("_engine")) is eng_ for t in terms_ if "engine" in t.fields or "_engine" in t.fields)))
+
+                ex.func_hooks["RuleBlock.load_rules"] = load_rules
+
+                def C(cname, *a, **k):
+                    return ex.instantiate(p.cls(cname), list(a), k, E0)
+
+                def terms():
+                    return [C("Function", "f", "a + 1"), C("Linear", "l", [1.0, 2.0]), C("Triangle", "t", 0.0, 1.0, 2.0)]
+
+                iv = C("InputVariable", name="A", terms=terms() if where in ("input", "both") else [])
+                ov = C("OutputVariable", name="O", terms=terms() if where in ("output", "both") else [])
+                rbs = [C("RuleBlock", name="first"), C("RuleBlock", name="second")]
+                try:
+                    eng = C("Engine", name="model", input_variables=[iv], output_variables=[ov], rule_blocks=rbs, load=load)
+                except (Raised, Internal) as err:
+                    why_u = why_u or f"Engine(..., load={load}) with engine-referring terms in the {where} variables fails with {err.cls}"
+                    continue
+                holders = [(v.fields.get("name"), t) for v in (iv, ov) for t in v.fields.get("terms", []) if "engine" in t.fields or "_engine" in t.fields]
+                for vname, t in holders:
+                    ref = t.fields.get("engine", t.fields.get("_engine"))
+                    if load and ref is not eng:
+                        why_u = why_u or (f"Engine(..., load=True): the {t.cls} term `{t.fields.get('name')}` of the variable `{vname}` refers to "
+                                          f"{'no engine' if ref is None else 'another object'} afterwards, not to the new engine: a Linear / Function term of that variable "
+                                          "keeps pointing at the engine it was built for (or at none)")
+                    if not load and ref is not None:
+                        why_u = why_u or f"Engine(..., load=False) sets the engine reference of the {t.cls} term `{t.fields.get('name')}`"
+                if load:
+                    if [x[0] for x in log] != ["first", "second"] or not all(x[1] is eng for x in log):
+                        why_l = why_l or f"Engine(..., load=True): the rule blocks asked to load their rules with the new engine are {[x[0] for x in log]}, specified every block, in order"
+                    elif holders and not all(x[2] for x in log):
+                        why_l = why_l or "Engine(..., load=True) loads the rules before every term refers to the new engine (a rule's Function terms are then parsed against no engine)"
+                elif log:
+                    why_l = why_l or "Engine(..., load=False) loads rules"
+    except Unknown as u:
+        raise AnalysisError(str(u)) from None
+    check.require(why_u is None, "H7", "Engine.__init__/update-references", f"under load, every term of every input and output variable is re-pointed to this engine ({cases} model engines)"
+                  if why_u is None else why_u, loc(fn), exhaustive=True, cases=cases)
+    check.require(why_l is None, "H7", "Engine.__init__/load-rules", "then every rule block is loaded against this engine" if why_l is None else why_l, loc(fn), exhaustive=True, cases=cases)
 
 
 # ------------------------------------------------------------------------------------------------ H9
